@@ -248,6 +248,64 @@ def _centroid_generator(repo):
             '   sum nr fun i => sum nc fun j => ((centroidGrid 1 i j : Int) : K) * centroidWeight (img i j) total)\n')
     return lean, ['centroid: normalisation, mgrid lower bounds, grid/component pairing and return order translated; asarray, shape unpacking, mgrid upper bounds and the np.dot/ravel form checked structurally']
 
+
+# ---------------------------------------------------------------------------------------------- util.rebin
+def _rebin_generator(repo):
+    """util.rebin: the target shape handed to `reshape` and the two summed axes, in the 2-D and in the cube branch, translated from the source
+    (`img.shape[k]`, `factor`, `//`, the intermediate tuple `rebinned_shape`); the complex guard, the ndim test and the return are matched."""
+    mod = ast.parse(open(os.path.join(repo, 'lentil/util.py')).read())
+    fn = [n for n in mod.body if isinstance(n, ast.FunctionDef) and n.name == 'rebin']
+    if not fn: raise Refuse('rebin not found')
+    fn = fn[0]
+    if [a.arg for a in fn.args.args] != ['img', 'factor'] or fn.args.defaults: raise Refuse('rebin: signature changed')
+    body = [x for x in fn.body if not (isinstance(x, ast.Expr) and isinstance(x.value, ast.Constant))]
+    u = lambda x: ast.unparse(x).replace(' ', '')
+    if len(body) != 4 or u(body[0]) != 'img=np.asarray(img)': raise Refuse('rebin: statement list changed')
+    g = body[1]
+    if not (isinstance(g, ast.If) and u(g.test) == 'np.iscomplexobj(img)' and not g.orelse and len(g.body) == 1 and isinstance(g.body[0], ast.Raise)
+            and u(g.body[0].exc).startswith('ValueError(')): raise Refuse('rebin: complex guard changed')
+    br = body[2]
+    if not (isinstance(br, ast.If) and u(br.test) in ('img.ndim==3', '3==img.ndim') and br.orelse): raise Refuse('rebin: `if img.ndim == 3 … else` not found')
+    if not (isinstance(body[3], ast.Return) and isinstance(body[3].value, ast.Name)): raise Refuse('rebin: return changed')
+    out = body[3].value.id
+    def branch(stmts, names):
+        env = {}
+        def ix(e):
+            t = u(e)
+            if t in names: return names[t]
+            if t == 'factor': return 'f'
+            if isinstance(e, ast.Subscript) and isinstance(e.value, ast.Name) and e.value.id in env and isinstance(e.slice, ast.Constant) \
+                    and isinstance(e.slice.value, int) and 0 <= e.slice.value < len(env[e.value.id]):
+                return env[e.value.id][e.slice.value]
+            if isinstance(e, ast.BinOp) and type(e.op) in (ast.FloorDiv, ast.Mult, ast.Add, ast.Sub):
+                return f"({ix(e.left)} {({ast.FloorDiv: '/', ast.Mult: '*', ast.Add: '+', ast.Sub: '-'})[type(e.op)]} {ix(e.right)})"
+            if isinstance(e, ast.Constant) and isinstance(e.value, int) and not isinstance(e.value, bool): return f'({e.value} : Int)'
+            raise Refuse('rebin: integer expression ' + ast.unparse(e))
+        for st in stmts[:-1]:
+            if not (isinstance(st, ast.Assign) and isinstance(st.targets[0], ast.Name) and isinstance(st.value, ast.Tuple)): raise Refuse('rebin: statement ' + ast.unparse(st)[:80])
+            env[st.targets[0].id] = [ix(e) for e in st.value.elts]
+        st = stmts[-1]
+        if not (isinstance(st, ast.Assign) and u(st.targets[0]) == out): raise Refuse('rebin: the branch does not assign the returned name')
+        axes, e = [], st.value
+        while isinstance(e, ast.Call) and isinstance(e.func, ast.Attribute) and e.func.attr == 'sum':
+            if len(e.args) != 1 or e.keywords or not u(e.args[0]).lstrip('-').isdigit(): raise Refuse('rebin: sum call ' + ast.unparse(e)[:80])
+            axes.append(int(u(e.args[0]))); e = e.func.value
+        axes.reverse()
+        if not (isinstance(e, ast.Call) and isinstance(e.func, ast.Attribute) and e.func.attr == 'reshape' and u(e.func.value) == 'img' and not e.keywords):
+            raise Refuse('rebin: not img.reshape(...).sum(..).sum(..)')
+        if len(axes) != 2: raise Refuse('rebin: two summed axes expected')
+        return [ix(a) for a in e.args], axes
+    d3, a3 = branch(br.body, {'img.shape[0]': 'd', 'img.shape[1]': 's0', 'img.shape[2]': 's1'})
+    d2, a2 = branch(br.orelse, {'img.shape[0]': 's0', 'img.shape[1]': 's1'})
+    ax = lambda a: '[' + ', '.join(f'({x} : Int)' for x in a) + ']'
+    lean = ('/-- `util.rebin`, 2-D branch: the shape handed to `img.reshape` and the axes summed afterwards (in order) -/\n'
+            f"def rebinReshape2 (s0 s1 f : Int) : List Int := [{', '.join(d2)}]\n"
+            f'def rebinSumAxes2 : List Int := {ax(a2)}\n\n'
+            '/-- `util.rebin`, cube branch (`img.ndim == 3`, shape `(d, s0, s1)`) -/\n'
+            f"def rebinReshape3 (d s0 s1 f : Int) : List Int := [{', '.join(d3)}]\n"
+            f'def rebinSumAxes3 : List Int := {ax(a3)}\n')
+    return lean, ['rebin: reshape target shapes and summed axes of both branches translated; asarray, complex guard, ndim test and return matched']
+
 UTIL = {
     'pad#2': {'py_name': 'pad', 'lean_name': 'padIdx2', 'block': _pad_block,
               'params': [('array', ('attr', {'shape': 'pair'})), ('shape', 'pair'), ('offset', ('const', 0))]},
@@ -525,5 +583,6 @@ MODULES = [
     {'name': 'Hex', 'src': 'lentil/segmented.py', 'generator': _hex_generator, 'props': ['C20']},
     {'name': 'Mesh', 'src': 'lentil/helper.py', 'generator': _mesh_generator, 'props': ['C20', 'C11']},
     {'name': 'UtilCentroid', 'src': 'lentil/util.py', 'generator': _centroid_generator, 'props': ['C20', 'C11']},
+    {'name': 'UtilRebin', 'src': 'lentil/util.py', 'generator': _rebin_generator, 'props': ['C20']},
     {'name': 'UtilWindow', 'src': 'lentil/util.py', 'generator': _window_generator, 'props': ['C20']},
 ]
